@@ -1365,4 +1365,677 @@ Section StructuredMultiple.
     - intros c0 Ic0. inversion Ic0; subst c0. unfold PolySpec.plead. rewrite En', map_app. cbn [map].
       rewrite last_last. exact Dci.
   Qed.
+  (* ---- degree >= 1.  `multiply` enters through the hypothesis Hmult (= PolyCoreProofs.multiply_spec, C07). *)
+  Variable B : Z.
+  Hypothesis Hmult : forall a b, okl a -> okl b -> (poly_degree o a + poly_degree o b + 1 <= B)%Z ->
+    exists r, poly_multiply o ntt intt a b = Some r /\ okl r /\
+              (zlen r <= Z.max 0 (poly_degree o a + poly_degree o b + 1))%Z /\ peq (D r) (PolySpec.pmul fk (D a) (D b)).
+
+  Lemma pnorm_head_of_coeff0 (p : list K) : coeff p 0 = 1 -> exists t, pnorm fk p = 1 :: t.
+  Proof.
+    intros E. rewrite <- (peq_elim fk _ _ (pnorm_peq fk p) 0%nat) in E. destruct (pnorm fk p) as [|h t].
+    - rewrite coeff_nil in E. exfalso. exact (k1_neq_0 fk (eq_sym E)).
+    - rewrite coeff_cons_0 in E. subst h. exists t. reflexivity.
+  Qed.
+
+  (* a multiple of f, monic, of degree exactly n, of the documented form X^n + (something of degree < deg f) *)
+  Theorem structured_multiple_spec l n : okl l -> (1 <= poly_degree o l)%Z -> (poly_degree o l <= n)%Z -> (n + 1 <= B)%Z ->
+    exists r, pdiv_structured_multiple_of_degree o ntt intt l n = Some r /\ okl r /\
+              pdvd (D l) (D r) /\ pdeg (D r) = n /\ plead fk (D r) = 1 /\
+              (forall i, (Z.to_nat (poly_degree o l) <= i < Z.to_nat n)%nat -> coeff (D r) i = 0) /\
+              zlen r = (n + 1)%Z.
+  Proof.
+    intros Hl Hd Hn HB. unfold pdiv_structured_multiple_of_degree.
+    pose proof (degree_pdeg o fk ok den H l Hl) as Dd.
+    set (d := poly_degree o l) in *.
+    destruct (d <? 0)%Z eqn:E0; [apply Z.ltb_lt in E0; lia|]. destruct (n <? d)%Z eqn:E1; [apply Z.ltb_lt in E1; lia|].
+    destruct (d =? 0)%Z eqn:E2; [apply Z.eqb_eq in E2; lia|]. clear E0 E1 E2.
+    assert (NZ : ~ pzero (D l)) by (apply pdeg_nonneg_iff; lia).
+    destruct (proj2 (leading_coeff_nonzero o fk ok den H l Hl) NZ) as [lc [L1 [L2 [L3 L4]]]].
+    destruct (rev_normalize_head o l lc L1) as [ds [R1 R2]]. fold d in R2.
+    assert (Erev : poly_reverse o l = lc :: ds) by (unfold poly_reverse; rewrite <- (normalize_take o l); exact R1).
+    assert (Hrv : okl (lc :: ds)) by (rewrite <- R1; apply Forall_rev; apply (normalize_ok o ok); exact Hl).
+    rewrite Erev. inversion Hrv as [|? ? Hlc Hds]; subst.
+    destruct (fpsi_minimal_spec o fk ok den H lc ds (n - d) Hlc Hds L4 ltac:(lia)) as [g [G1 [G2 [G3 G4]]]]. rewrite G1.
+    set (dn := Z.to_nat d). set (pn := Z.to_nat (n - d)) in *.
+    pose proof (degree_lt_len o (lc :: ds)) as B1. pose proof (degree_lt_len o g) as B2.
+    assert (Z1 : zlen (lc :: ds) = (d + 1)%Z) by (unfold zlen; cbn [length]; lia).
+    assert (Z2 : zlen g = (n - d + 1)%Z) by (unfold zlen; rewrite G3; unfold pn; lia).
+    destruct (Hmult (lc :: ds) g Hrv G2 ltac:(lia)) as [PR [E [Hpr [_ Ppr]]]]. rewrite E.
+    set (RG := PolySpec.pmul fk (D (lc :: ds)) (D g)) in *.
+    (* the reversed product *)
+    assert (C0 : coeff RG 0 = 1) by (rewrite (G4 O ltac:(lia)); reflexivity).
+    destruct (pnorm_head_of_coeff0 RG C0) as [t Pn].
+    pose proof (normalize_ok o ok PR Hpr) as Hnp.
+    assert (Dnp : D (poly_normalize o PR) = 1 :: t).
+    { rewrite (normalize_pnorm o fk ok den H PR Hpr), (pnorm_unique fk _ _ Ppr). exact Pn. }
+    assert (Eprod : poly_reverse o PR = rev (poly_normalize o PR)) by (unfold poly_reverse; rewrite <- (normalize_take o PR); reflexivity).
+    rewrite Eprod. set (product := rev (poly_normalize o PR)).
+    assert (Hprod : okl product) by (apply Forall_rev; exact Hnp).
+    assert (Dprod : D product = rev t ++ [1]) by (unfold product; rewrite map_rev, Dnp; reflexivity).
+    assert (Pd : pdeg RG = Z.of_nat (length t)) by (unfold PolySpec.pdeg; rewrite Pn; cbn [length]; lia).
+    assert (Nprod : pnorm fk (D product) = D product).
+    { apply pnorm_last_id. rewrite Dprod, last_last. exact (k1_neq_0 fk). }
+    assert (Edeg : poly_degree o product = pdeg RG).
+    { rewrite (degree_pdeg o fk ok den H product Hprod). unfold PolySpec.pdeg at 1. rewrite Nprod, Dprod, app_length, rev_length.
+      cbn [length]. lia. }
+    (* deg (reverse * inverse) <= n *)
+    assert (Ub : (pdeg RG <= n)%Z).
+    { assert (X : (pdeg RG < Z.of_nat (S (Z.to_nat n)))%Z); [|lia]. apply pdeg_bound. intros i Hi. apply coeff_pmul_above.
+      pose proof (pdeg_le_length fk (D (lc :: ds))) as P1. pose proof (pdeg_le_length fk (D g)) as P2.
+      rewrite map_length in P1, P2. rewrite G3 in P2. cbn [length] in P1. unfold pn in P2. lia. }
+    rewrite Edeg. destruct ((pdeg RG <? 0) || (n <? pdeg RG))%Z eqn:Ec.
+    { apply orb_true_iff in Ec. destruct Ec as [Ec|Ec]; apply Z.ltb_lt in Ec; lia. }
+    clear Ec. set (k := Z.to_nat (n - pdeg RG)).
+    exists (poly_shift_coefficients o product (n - pdeg RG)). split; [reflexivity|].
+    split; [apply (shift_ok o fk ok den H); exact Hprod|].
+    assert (Lres : zlen (poly_shift_coefficients o product (n - pdeg RG)) = (n + 1)%Z).
+    { unfold poly_shift_coefficients. rewrite zlen_app, zlen_zrepeat. unfold zlen.
+      rewrite <- (map_length den product), Dprod, app_length, rev_length. cbn [length]. lia. }
+    rewrite (shift_D o fk ok den H). fold k. rewrite Dprod.
+    (* the polynomial identity: X^k rev(P) = krev n RG = f * krev (n - d) g *)
+    assert (Epoly : peq (PolySpec.pshift fk k (rev t ++ [1])) (krev fk (Z.to_nat n) RG)).
+    { replace (Z.to_nat n) with (length t + k)%nat by (unfold k; lia).
+      rewrite (krev_shift fk (length t) k RG) by (intros i Hi; apply coeff_above_pdeg; lia).
+      apply pshift_peq. change (rev t ++ [1]) with (rev (1 :: t)). rewrite <- Pn.
+      rewrite (rev_krev fk (length t)) by (rewrite Pn; reflexivity). apply krev_peq. apply pnorm_peq. }
+    assert (Efac : peq (krev fk (Z.to_nat n) RG) (PolySpec.pmul fk (D l) (krev fk pn (D g)))).
+    { replace (Z.to_nat n) with (dn + pn)%nat by (unfold dn, pn; lia). unfold RG.
+      rewrite (krev_pmul fk (D (lc :: ds)) (D g) dn pn).
+      - apply pmul_peq; [|reflexivity].
+        (* reverse = krev dn f, and krev is an involution *)
+        rewrite <- R1, map_rev, (normalize_pnorm o fk ok den H l Hl).
+        rewrite (rev_krev fk dn) by (unfold PolySpec.pdeg in Dd; unfold dn; lia).
+        rewrite (krev_peq fk dn _ _ (pnorm_peq fk (D l))). apply krev_involutive.
+        intros i Hi. apply coeff_above_pdeg. unfold dn in Hi. lia.
+      - intros i Hi. apply coeff_overflow. rewrite map_length. cbn [length]. unfold dn in Hi. lia.
+      - intros i Hi. apply coeff_overflow. rewrite map_length, G3. lia. }
+    split; [exists (krev fk pn (D g)); rewrite Epoly, Efac; apply pmul_comm|].
+    assert (Nres : pnorm fk (PolySpec.pshift fk k (rev t ++ [1])) = PolySpec.pshift fk k (rev t ++ [1])).
+    { apply pnorm_last_id. unfold PolySpec.pshift. rewrite app_assoc, last_last. exact (k1_neq_0 fk). }
+    split; [|split; [|split; [|exact Lres]]].
+    - unfold PolySpec.pdeg. rewrite Nres. unfold PolySpec.pshift. rewrite !app_length, repeat_length, rev_length. cbn [length]. unfold k. lia.
+    - unfold PolySpec.plead. rewrite Nres. unfold PolySpec.pshift. rewrite app_assoc, last_last. reflexivity.
+    - intros i Hi. rewrite (peq_elim fk _ _ Epoly i), coeff_krev.
+      replace (i <=? Z.to_nat n)%nat with true by (symmetry; apply Nat.leb_le; lia).
+      rewrite (G4 (Z.to_nat n - i)%nat) by (unfold pn; fold d in Hi; lia).
+      destruct (Z.to_nat n - i)%nat eqn:E3; [fold d in Hi; lia|]. unfold PolySpec.pone. rewrite coeff_cons_S. apply coeff_nil.
+  Qed.
 End StructuredMultiple.
+
+Section StructuredMultipleDft.
+  Context {F K : Type} (o : fops F) (fk : fieldK K) (ok : F -> Prop) (den : F -> K).
+  Hypothesis H : field_ok o fk ok den.
+  Variable ntt : list F -> option (list F).
+  Variable intt : list F -> option (list F).
+  Variable lmax : nat.
+  Variable wr : nat -> K.
+  Hypothesis ntt_is_dft : forall l x, (l <= lmax)%nat -> length x = (2 ^ l)%nat -> Forall ok x ->
+    exists y, ntt x = Some y /\ Forall ok y /\ length y = length x /\ map den y = dft fk (wr l) (map den x).
+  Hypothesis intt_is_idft : forall l x, (l <= lmax)%nat -> length x = (2 ^ l)%nat -> Forall ok x ->
+    exists y, intt x = Some y /\ Forall ok y /\ length y = length x /\ map den y = idft fk (wr l) (map den x).
+  Hypothesis wr_half_root : forall l, (l <= lmax)%nat -> half_root fk (wr l) l.
+  Hypothesis wr_nonzero : forall l, (l <= lmax)%nat -> wr l <> k0 fk.
+  Hypothesis two_nz : two_neq_0 fk.
+
+  Theorem structured_multiple_dft l n : Forall ok l -> (1 <= poly_degree o l)%Z -> (poly_degree o l <= n)%Z ->
+    (n + 1 <= 2 ^ Z.of_nat lmax)%Z ->
+    exists r, pdiv_structured_multiple_of_degree o ntt intt l n = Some r /\ Forall ok r /\
+              pdvd fk (map den l) (map den r) /\ pdeg fk (map den r) = n /\ plead fk (map den r) = k1 fk /\
+              (forall i, (Z.to_nat (poly_degree o l) <= i < Z.to_nat n)%nat -> coeff fk (map den r) i = k0 fk) /\
+              zlen r = (n + 1)%Z.
+  Proof.
+    apply (structured_multiple_spec o fk ok den H ntt intt (2 ^ Z.of_nat lmax)).
+    intros a b Ha Hb Hsz.
+    exact (multiply_spec o fk ok den H ntt intt lmax wr ntt_is_dft intt_is_idft wr_half_root wr_nonzero two_nz a b Ha Hb Hsz).
+  Qed.
+  (* fn structured_multiple: degree 3 * deg + 1 *)
+  Corollary structured_multiple_3n1_dft l : Forall ok l -> (1 <= poly_degree o l)%Z ->
+    (3 * poly_degree o l + 2 <= 2 ^ Z.of_nat lmax)%Z ->
+    exists r, pdiv_structured_multiple o ntt intt l = Some r /\ Forall ok r /\
+              pdvd fk (map den l) (map den r) /\ pdeg fk (map den r) = (3 * poly_degree o l + 1)%Z /\ plead fk (map den r) = k1 fk.
+  Proof.
+    intros Hl Hd Hb. unfold pdiv_structured_multiple.
+    destruct (poly_degree o l <? 0)%Z eqn:E; [apply Z.ltb_lt in E; lia|].
+    destruct (structured_multiple_dft l (3 * poly_degree o l + 1) Hl Hd ltac:(lia) ltac:(lia)) as [r [R1 [R2 [R3 [R4 [R5 _]]]]]].
+    exists r. split; [exact R1|]. split; [exact R2|]. split; [exact R3|]. split; [exact R4|exact R5].
+  Qed.
+End StructuredMultipleDft.
+
+(* ================================================================== 9. reduce_by_structured_modulus
+   The chunk-wise reduction by a monic multiple M = X^wl + S (deg S < wl - 1 ... the "tail") preserves the residue class
+   modulo M: the result is congruent to the input and has at most wl stored coefficients.  `multiply` enters through Hmult. *)
+Section StructuredReduceK.
+  Context {K : Type} (fk : fieldK K).
+  Local Notation "0" := (k0 fk).
+  Local Notation "1" := (k1 fk).
+  Local Infix "+" := (kadd fk).
+  Local Notation peq := (peq fk).
+  Local Notation coeff := (coeff fk).
+  Local Notation padd := (padd fk).
+  Local Notation psub := (psub fk).
+  Local Notation pmul := (pmul fk).
+  Local Notation pshift := (pshift fk).
+  Local Notation pXn := (pXn fk).
+  Add Field kfield_PolyDivProofs_SRK : (kFT fk).
+  Add Ring polyring_PolyDivProofs_SRK : (poly_ring_theory fk) (setoid (peq_Equivalence fk) (poly_ring_ext fk)).
+
+  Lemma app_padd_pshift (u v : list K) : peq (u ++ v) (padd u (pshift (length u) v)).
+  Proof.
+    apply peq_intro. intros i. rewrite coeff_padd, coeff_pshift. destruct (i <? length u)%nat eqn:E.
+    - apply Nat.ltb_lt in E. rewrite coeff_app_l by exact E. ring.
+    - apply Nat.ltb_ge in E. rewrite coeff_app_r by exact E. rewrite (coeff_overflow fk u i) by exact E. ring.
+  Qed.
+  Lemma pXn_add a b : peq (pXn (a + b)) (pmul (pXn a) (pXn b)).
+  Proof.
+    rewrite <- (pshift_pmul fk a (pXn b)). unfold PolySpec.pshift, PolySpec.pXn. rewrite repeat_app, app_assoc. reflexivity.
+  Qed.
+  (* one step of the window:  T ++ C ++ L ++ O  =  X^ws O (S + X^(cs+tail))  +  T ++ ((C ++ L) - O S) *)
+  Lemma structured_step (T C L O S W' : list K) ws cs tail :
+    length T = ws -> length C = cs -> length L = tail ->
+    peq W' (psub (C ++ L) (pmul O S)) ->
+    peq (T ++ C ++ L ++ O)
+        (padd (pmul (pmul (pXn ws) O) (padd S (pXn (cs + tail)))) (padd T (pshift ws W'))).
+  Proof.
+    intros LT LC LL EW. rewrite EW.
+    rewrite (app_padd_pshift T), (app_padd_pshift C), (app_padd_pshift L), (app_padd_pshift C L), LT, LC, LL.
+    rewrite !(pshift_pmul fk), pXn_add. ring.
+  Qed.
+End StructuredReduceK.
+
+Section StructuredReduceHelpers.
+  Context {F K : Type} (o : fops F) (fk : fieldK K) (ok : F -> Prop) (den : F -> K).
+  Hypothesis H : field_ok o fk ok den.
+  Local Notation "0" := (k0 fk).
+  Local Notation D := (map den).
+  Local Notation okl := (Forall ok).
+  Local Notation peq := (peq fk).
+  Local Notation psub := (psub fk).
+  Add Field kfield_PolyDivProofs_SRH : (kFT fk).
+
+  Lemma zlen_drop {A} n (l : list A) : (0 <= n)%Z -> zlen (drop n l) = Z.max 0 (zlen l - n).
+  Proof. intros Hn. unfold zlen, drop. rewrite skipn_length. lia. Qed.
+  Lemma take_drop_id {A} n (l : list A) : take n l ++ drop n l = l.
+  Proof. unfold take, drop. apply firstn_skipn. Qed.
+  Lemma firstn_add_skipn {A} n m (l : list A) : firstn (n + m) l = firstn n l ++ firstn m (skipn n l).
+  Proof.
+    revert l. induction n as [|n IH]; intros l; [reflexivity|]. destruct l as [|x l]; [cbn; rewrite firstn_nil; reflexivity|].
+    cbn [Nat.add firstn skipn app]. f_equal. apply IH.
+  Qed.
+  Lemma take_add {A} n m (l : list A) : (0 <= n)%Z -> (0 <= m)%Z -> take (n + m) l = take n l ++ take m (drop n l).
+  Proof. intros Hn Hm. unfold take, drop. rewrite Z2Nat.inj_add by lia. apply firstn_add_skipn. Qed.
+
+  (* ww - product, the product padded with zeros to the window length *)
+  Lemma map2_sub_pad ww : forall p, okl ww -> okl p -> (length p <= length ww)%nat ->
+    okl (map2 (fsub o) ww (p ++ repeat (fzero o) (length ww - length p))) /\
+    length (map2 (fsub o) ww (p ++ repeat (fzero o) (length ww - length p))) = length ww /\
+    peq (D (map2 (fsub o) ww (p ++ repeat (fzero o) (length ww - length p)))) (psub (D ww) (D p)).
+  Proof.
+    induction ww as [|w ww IH]; intros p Hw Hp Hl.
+    - destruct p; [|cbn in Hl; lia]. cbn. split; [constructor|]. split; [reflexivity|]. reflexivity.
+    - inversion Hw as [|? ? Hw0 Hw']; subst. destruct p as [|y p].
+      + cbn [app length Nat.sub repeat map2]. destruct (IH [] Hw' (Forall_nil _) ltac:(cbn; lia)) as [I1 [I2 I3]].
+        cbn [app length] in I1, I2, I3. rewrite Nat.sub_0_r in I1, I2, I3.
+        destruct (fo_sub _ _ _ _ H w (fzero o) Hw0 (ok0 o fk ok den H)) as [S1 S2].
+        split; [constructor; assumption|]. split; [cbn [length]; rewrite I2; reflexivity|].
+        cbn [map]. apply peq_intro. intros [|i].
+        * rewrite coeff_psub, !coeff_cons_0, coeff_nil, S2, (den0 o fk ok den H). reflexivity.
+        * rewrite coeff_psub, !coeff_cons_S, coeff_nil, (peq_elim fk _ _ I3 i), coeff_psub. cbn [map]. rewrite coeff_nil. reflexivity.
+      + inversion Hp as [|? ? Hy Hp']; subst. cbn [length] in Hl. cbn [app length Nat.sub map2].
+        destruct (IH p Hw' Hp' ltac:(lia)) as [I1 [I2 I3]].
+        destruct (fo_sub _ _ _ _ H w y Hw0 Hy) as [S1 S2].
+        split; [constructor; assumption|]. split; [cbn [length]; rewrite I2; reflexivity|].
+        cbn [map]. apply peq_intro. intros [|i].
+        * rewrite coeff_psub, !coeff_cons_0, S2. reflexivity.
+        * rewrite coeff_psub, !coeff_cons_S, (peq_elim fk _ _ I3 i), coeff_psub. reflexivity.
+  Qed.
+  Lemma resize_pad (p : list F) n : (zlen p <= n)%Z -> resize p n (fzero o) = p ++ repeat (fzero o) (Z.to_nat n - length p).
+  Proof.
+    intros Hl. unfold resize. rewrite (take_all n p Hl). unfold zrepeat, zlen in *. f_equal. f_equal. lia.
+  Qed.
+
+End StructuredReduceHelpers.
+
+Section StructuredReduce.
+  Context {F K : Type} (o : fops F) (fk : fieldK K) (ok : F -> Prop) (den : F -> K).
+  Hypothesis H : field_ok o fk ok den.
+  Variable ntt : list F -> option (list F).
+  Variable intt : list F -> option (list F).
+  Local Notation "0" := (k0 fk).
+  Local Notation "1" := (k1 fk).
+  Local Notation D := (map den).
+  Local Notation okl := (Forall ok).
+  Local Notation peq := (peq fk).
+  Local Notation coeff := (coeff fk).
+  Local Notation padd := (padd fk).
+  Local Notation psub := (psub fk).
+  Local Notation pmul := (pmul fk).
+  Local Notation pshift := (pshift fk).
+  Local Notation pXn := (pXn fk).
+  Local Notation pdeg := (pdeg fk).
+  Add Field kfield_PolyDivProofs_SR : (kFT fk).
+  Add Ring polyring_PolyDivProofs_SR : (poly_ring_theory fk) (setoid (peq_Equivalence fk) (poly_ring_ext fk)).
+
+  Variable B : Z.
+  Hypothesis Hmult : forall a b, okl a -> okl b -> (poly_degree o a + poly_degree o b + 1 <= B)%Z ->
+    exists r, poly_multiply o ntt intt a b = Some r /\ okl r /\
+              (zlen r <= Z.max 0 (poly_degree o a + poly_degree o b + 1))%Z /\ peq (D r) (pmul (D a) (D b)).
+
+  (* the loop: invariant  a = k M + (take wstart a ++ ww)  with |ww| = cs + tail, wstart = j cs *)
+  Lemma structured_loop_spec a shift cs tail : okl a -> okl shift -> (0 < cs)%Z -> (0 <= tail)%Z ->
+    (poly_degree o shift < tail)%Z -> (cs + tail <= B)%Z ->
+    forall j wstart ww k, okl ww -> zlen ww = (cs + tail)%Z -> wstart = (Z.of_nat j * cs)%Z -> (wstart <= zlen a)%Z ->
+      peq (D a) (padd (pmul k (padd (D shift) (pXn (Z.to_nat (cs + tail))))) (D (take wstart a ++ ww))) ->
+      exists r k', pdiv_structured_loop o ntt intt j a shift cs tail wstart ww = Some r /\ okl r /\
+                   zlen r = (cs + tail)%Z /\
+                   peq (D a) (padd (pmul k' (padd (D shift) (pXn (Z.to_nat (cs + tail))))) (D r)).
+  Proof.
+    intros Ha Hs Hcs Htl Hsd HB. induction j as [|j IH]; intros wstart ww k Hww Lww Ews Lws Inv.
+    - exists ww, k. split; [reflexivity|]. split; [exact Hww|]. split; [exact Lww|].
+      subst wstart. cbn in Inv. exact Inv.
+    - cbn [pdiv_structured_loop].
+      destruct (zlen ww <? tail)%Z eqn:E0; [apply Z.ltb_lt in E0; lia|]. clear E0.
+      assert (Hov : okl (drop tail ww)) by (unfold drop; apply Forall_skipn; exact Hww).
+      assert (Lov : zlen (drop tail ww) = cs) by (rewrite zlen_drop by lia; lia).
+      pose proof (degree_lt_len o (drop tail ww)) as Dov.
+      destruct (Hmult (drop tail ww) shift Hov Hs ltac:(lia)) as [product [E1 [Hpr [Lpr Ppr]]]]. rewrite E1.
+      set (ws := (wstart - cs)%Z).
+      assert (Ews' : ws = (Z.of_nat j * cs)%Z) by (unfold ws; lia).
+      destruct (ws <? 0)%Z eqn:E2; [apply Z.ltb_lt in E2; lia|]. clear E2.
+      set (chunk := take cs (drop ws a)).
+      assert (Lch : zlen chunk = cs).
+      { unfold chunk. rewrite zlen_take, zlen_drop by lia. lia. }
+      rewrite Lch, Z.eqb_refl. cbn [negb].
+      assert (Hch : okl chunk) by (unfold chunk; apply Forall_take; unfold drop; apply Forall_skipn; exact Ha).
+      assert (Hlow : okl (take tail ww)) by (apply Forall_take; exact Hww).
+      assert (Llow : zlen (take tail ww) = tail) by (rewrite zlen_take; lia).
+      set (ww1 := chunk ++ take tail ww).
+      assert (Hww1 : okl ww1) by (apply Forall_app; split; assumption).
+      assert (Lww1 : zlen ww1 = (cs + tail)%Z) by (unfold ww1; rewrite zlen_app; lia).
+      assert (Lp : (zlen product <= zlen ww1)%Z) by lia.
+      rewrite (resize_pad o product (zlen ww1) Lp).
+      replace (Z.to_nat (zlen ww1) - length product)%nat with (length ww1 - length product)%nat by (unfold zlen; lia).
+      destruct (map2_sub_pad o fk ok den H ww1 product Hww1 Hpr ltac:(unfold zlen in Lp; lia)) as [M1 [M2 M3]].
+      set (ww' := map2 (fsub o) ww1 (product ++ repeat (fzero o) (length ww1 - length product))) in *.
+      apply (IH ws ww' (padd k (pmul (pXn (Z.to_nat ws)) (D (drop tail ww)))) M1).
+      + unfold zlen in *. lia.
+      + exact Ews'.
+      + lia.
+      + (* the invariant *)
+        rewrite Inv.
+        assert (Esplit : take wstart a ++ ww = take ws a ++ chunk ++ take tail ww ++ drop tail ww).
+        { replace wstart with (ws + cs)%Z by (unfold ws; lia). rewrite (take_add ws cs a) by lia. fold chunk.
+          rewrite <- app_assoc. rewrite (take_drop_id tail ww). reflexivity. }
+        rewrite Esplit, !map_app.
+        assert (LT : length (D (take ws a)) = Z.to_nat ws).
+        { rewrite map_length. pose proof (zlen_take ws a) as X. unfold zlen in *. lia. }
+        rewrite (structured_step fk (D (take ws a)) (D chunk) (D (take tail ww)) (D (drop tail ww)) (D shift) (D ww')
+                   (Z.to_nat ws) (Z.to_nat cs) (Z.to_nat tail) LT
+                   ltac:(rewrite map_length; unfold zlen in Lch; lia) ltac:(rewrite map_length; unfold zlen in Llow; lia)).
+        * rewrite (app_padd_pshift fk (D (take ws a)) (D ww')), LT.
+          replace (Z.to_nat (cs + tail)) with (Z.to_nat cs + Z.to_nat tail)%nat by lia. ring.
+        * rewrite M3. unfold ww1. rewrite map_app, Ppr. reflexivity.
+  Qed.
+
+  (* reduce_by_structured_modulus: no panic for a monic multiple whose lower part leaves a non-empty chunk; the result is
+     congruent to the input modulo the multiple and has at most deg(multiple) stored coefficients (or is the input) *)
+  Theorem reduce_by_structured_modulus_spec a mult : okl a -> okl mult -> (1 <= poly_degree o mult)%Z ->
+    plead fk (D mult) = 1 -> (poly_degree o mult <= B)%Z ->
+    (poly_degree o (poly_sub o mult (poly_x_to_the o (poly_degree o mult))) + 1 < poly_degree o mult)%Z ->
+    exists r, pdiv_reduce_by_structured_modulus o ntt intt a mult = Some r /\ okl r /\
+              (zlen r <= Z.max (zlen a) (poly_degree o mult))%Z /\ (poly_degree o mult <= zlen a -> zlen r = poly_degree o mult)%Z /\
+              exists k, peq (D a) (padd (pmul k (D mult)) (D r)).
+  Proof.
+    intros Ha Hm Hmd Hmonic HB Htail. unfold pdiv_reduce_by_structured_modulus.
+    set (md := poly_degree o mult) in *.
+    destruct (md <=? 0)%Z eqn:E0; [apply Z.leb_le in E0; lia|]. clear E0.
+    pose proof (degree_pdeg o fk ok den H mult Hm) as Dm. fold md in Dm.
+    assert (NZ : ~ PolySpec.pzero fk (D mult)) by (apply pdeg_nonneg_iff; lia).
+    destruct (proj2 (leading_coeff_nonzero o fk ok den H mult Hm) NZ) as [lc [L1 [L2 [L3 L4]]]]. rewrite L1.
+    assert (Elc : feqb o lc (fone o) = true).
+    { apply (fo_eqb _ _ _ _ H lc (fone o) L2 (ok1 o fk ok den H)). rewrite L3, Hmonic, (den1 o fk ok den H). reflexivity. }
+    rewrite Elc. cbn [negb].
+    set (shift := poly_sub o mult (poly_x_to_the o md)) in *.
+    assert (Hxn : okl (poly_x_to_the o md)).
+    { unfold poly_x_to_the. apply Forall_app. split; [apply Forall_zrepeat; exact (ok0 o fk ok den H)|constructor; [exact (ok1 o fk ok den H)|constructor]]. }
+    assert (Hsh : okl shift) by (apply (sub_ok o fk ok den H); assumption).
+    assert (Dsh : D shift = psub (D mult) (pXn (Z.to_nat md))).
+    { unfold shift. rewrite (sub_D o fk ok den H) by assumption. rewrite (x_to_the_D o fk ok den H). reflexivity. }
+    set (sd := poly_degree o shift) in *.
+    destruct (sd <? md)%Z eqn:E1; [|apply Z.ltb_ge in E1; lia]. cbn [negb]. clear E1.
+    pose proof (degree_ge o shift) as Gsd. fold sd in Gsd.
+    set (tail := (if sd <? 0 then 0 else sd + 1)%Z).
+    assert (Etail : tail = (sd + 1)%Z) by (unfold tail; destruct (sd <? 0)%Z eqn:E; [apply Z.ltb_lt in E; lia|reflexivity]).
+    set (cs := (md - tail)%Z).
+    destruct (zlen a <? md)%Z eqn:E2.
+    - apply Z.ltb_lt in E2. exists a. split; [reflexivity|]. split; [exact Ha|]. split; [lia|]. split; [lia|].
+      exists []. cbn [PolySpec.pmul PolySpec.padd]. reflexivity.
+    - apply Z.ltb_ge in E2. destruct (cs =? 0)%Z eqn:E3; [apply Z.eqb_eq in E3; unfold cs in E3; lia|]. clear E3.
+      set (num := ((zlen a - md + cs - 1) / cs)%Z).
+      assert (Hcs : (0 < cs)%Z) by (unfold cs; lia).
+      assert (Hnum : (0 <= num /\ zlen a - md <= num * cs /\ num * cs <= zlen a - md + cs - 1)%Z).
+      { unfold num. pose proof (Z.div_mod (zlen a - md + cs - 1) cs ltac:(lia)) as DM.
+        pose proof (Z.mod_pos_bound (zlen a - md + cs - 1) cs Hcs) as MB.
+        assert (0 <= (zlen a - md + cs - 1) / cs)%Z by (apply Z.div_pos; lia). nia. }
+      destruct Hnum as [N0 [N1 N2]].
+      destruct (zlen a <? num * cs)%Z eqn:E4; [apply Z.ltb_lt in E4; unfold cs in *; lia|]. clear E4.
+      assert (Hd : okl (drop (num * cs) a)) by (unfold drop; apply Forall_skipn; exact Ha).
+      assert (Ld : (zlen (drop (num * cs) a) <= md)%Z) by (rewrite zlen_drop by lia; lia).
+      assert (Emd : md = (cs + tail)%Z) by (unfold cs; lia).
+      destruct (structured_loop_spec a shift cs tail Ha Hsh Hcs ltac:(lia) ltac:(fold sd; lia) ltac:(lia)
+                  (Z.to_nat num) (num * cs)%Z (resize (drop (num * cs) a) md (fzero o)) [])
+        as [r [k' [R1 [R2 [R3 R4]]]]].
+      + rewrite (resize_pad o _ md Ld). apply Forall_app. split; [exact Hd|]. apply Forall_forall. intros x Hx.
+        apply repeat_spec in Hx. subst x. exact (ok0 o fk ok den H).
+      + rewrite (resize_pad o _ md Ld), zlen_app. unfold zlen at 2. rewrite repeat_length. unfold zlen in *. lia.
+      + rewrite Z2Nat.id by lia. reflexivity.
+      + lia.
+      + cbn [PolySpec.pmul PolySpec.padd]. rewrite (resize_pad o _ md Ld), app_assoc, (take_drop_id (num * cs) a).
+        symmetry. apply (peq_D_app_zeros o fk ok den H).
+      + exists r. split; [exact R1|]. split; [exact R2|]. split; [lia|]. split; [intros _; lia|].
+        exists k'. rewrite R4. apply padd_peq; [|reflexivity]. apply pmul_peq; [reflexivity|].
+        rewrite Dsh, <- Emd. ring.
+  Qed.
+End StructuredReduce.
+
+(* ================================================================== 10. the NTT-friendly stage, shift_factor_ntt_with_tail_length, fast_reduce
+   Under the C06 hypotheses on ntt / intt (as Section FastSame of proofs/PolyCoreProofs.v). *)
+Section FastReduce.
+  Context {F K : Type} (o : fops F) (fk : fieldK K) (ok : F -> Prop) (den : F -> K).
+  Hypothesis H : field_ok o fk ok den.
+  Variable ntt : list F -> option (list F).
+  Variable intt : list F -> option (list F).
+  Variable lmax : nat.
+  Variable wr : nat -> K.
+  Hypothesis ntt_is_dft : forall l x, (l <= lmax)%nat -> length x = (2 ^ l)%nat -> Forall ok x ->
+    exists y, ntt x = Some y /\ Forall ok y /\ length y = length x /\ map den y = dft fk (wr l) (map den x).
+  Hypothesis intt_is_idft : forall l x, (l <= lmax)%nat -> length x = (2 ^ l)%nat -> Forall ok x ->
+    exists y, intt x = Some y /\ Forall ok y /\ length y = length x /\ map den y = idft fk (wr l) (map den x).
+  Hypothesis wr_half_root : forall l, (l <= lmax)%nat -> half_root fk (wr l) l.
+  Hypothesis wr_nonzero : forall l, (l <= lmax)%nat -> wr l <> k0 fk.
+  Hypothesis two_nz : two_neq_0 fk.
+  Local Notation "0" := (k0 fk).
+  Local Notation "1" := (k1 fk).
+  Local Notation D := (map den).
+  Local Notation okl := (Forall ok).
+  Local Notation peq := (peq fk).
+  Local Notation pzero := (pzero fk).
+  Local Notation coeff := (coeff fk).
+  Local Notation padd := (padd fk).
+  Local Notation psub := (psub fk).
+  Local Notation pmul := (pmul fk).
+  Local Notation pshift := (pshift fk).
+  Local Notation pXn := (pXn fk).
+  Local Notation pdeg := (pdeg fk).
+  Local Notation pdvd := (pdvd fk).
+  Add Field kfield_PolyDivProofs_FR : (kFT fk).
+  Add Ring polyring_PolyDivProofs_FR : (poly_ring_theory fk) (setoid (peq_Equivalence fk) (poly_ring_ext fk)).
+
+  Lemma Hmult_dft : forall a b, okl a -> okl b -> (poly_degree o a + poly_degree o b + 1 <= 2 ^ Z.of_nat lmax)%Z ->
+    exists r, poly_multiply o ntt intt a b = Some r /\ okl r /\
+              (zlen r <= Z.max 0 (poly_degree o a + poly_degree o b + 1))%Z /\ peq (D r) (pmul (D a) (D b)).
+  Proof.
+    intros a b Ha Hb Hsz.
+    exact (multiply_spec o fk ok den H ntt intt lmax wr ntt_is_dft intt_is_idft wr_half_root wr_nonzero two_nz a b Ha Hb Hsz).
+  Qed.
+
+  Lemma map2_mul_D la : forall lb, okl la -> okl lb ->
+    okl (map2 (fmul o) la lb) /\ D (map2 (fmul o) la lb) = map2 (kmul fk) (D la) (D lb).
+  Proof.
+    induction la as [|x la IH]; intros [|y lb] Ha Hb; cbn [map2 map]; try (split; [constructor|reflexivity]).
+    inversion Ha; inversion Hb; subst. destruct (IH lb ltac:(assumption) ltac:(assumption)) as [I1 I2].
+    destruct (fo_mul _ _ _ _ H x y ltac:(assumption) ltac:(assumption)) as [M1 M2].
+    split; [constructor; assumption|]. rewrite I2, M2. reflexivity.
+  Qed.
+
+  (* pointwise product with a precomputed transform = product of the polynomials, when it fits into the domain *)
+  Lemma ntt_product_spec l X Sp shift_ntt : (l <= lmax)%nat -> okl X -> okl Sp ->
+    length X = (2 ^ l)%nat -> length Sp = (2 ^ l)%nat -> ntt Sp = Some shift_ntt ->
+    (forall i, (2 ^ l <= i)%nat -> coeff (pmul (D X) (D Sp)) i = 0) ->
+    exists p1 product, ntt X = Some p1 /\ intt (map2 (fmul o) p1 shift_ntt) = Some product /\ okl product /\
+                       length product = (2 ^ l)%nat /\ peq (D product) (pmul (D X) (D Sp)).
+  Proof.
+    intros Hl HX HS LX LS ES Hfit.
+    destruct (ntt_is_dft l X Hl LX HX) as [p1 [P1 [P2 [P3 P4]]]].
+    destruct (ntt_is_dft l Sp Hl LS HS) as [y [Y1 [Y2 [Y3 Y4]]]]. rewrite ES in Y1. inversion Y1; subst y. clear Y1.
+    destruct (map2_mul_D p1 shift_ntt P2 Y2) as [M1 M2].
+    assert (Hh : D (map2 (fmul o) p1 shift_ntt) = dft fk (wr l) (ptrunc fk (2 ^ l) (pmul (D X) (D Sp)))).
+    { rewrite M2, P4, Y4. apply dft_hadamard; [rewrite map_length; exact LX|rewrite map_length; exact LS|exact Hfit]. }
+    assert (Lh : length (map2 (fmul o) p1 shift_ntt) = (2 ^ l)%nat).
+    { apply (f_equal (@length K)) in Hh. rewrite map_length, dft_length, ptrunc_length in Hh. exact Hh. }
+    destruct (intt_is_idft l _ Hl Lh M1) as [h [I1 [I2 [I3 I4]]]].
+    rewrite Hh, (idft_dft fk two_nz l (wr l) _ (ptrunc_length fk _ _) (wr_half_root l Hl) (wr_nonzero l Hl)) in I4.
+    exists p1, h. split; [exact P1|]. split; [exact I1|]. split; [exact I2|]. split; [rewrite I3; exact Lh|].
+    rewrite I4. apply ptrunc_peq. apply pdeg_bound. exact Hfit.
+  Qed.
+
+  (* the loop of reduce_by_ntt_friendly_modulus: the same invariant as the structured loop *)
+  Lemma ntt_friendly_loop_spec a Sp shift_ntt cs tail l : (l <= lmax)%nat -> okl a -> okl Sp ->
+    zlen Sp = (cs + tail)%Z -> (cs + tail)%Z = Z.of_nat (2 ^ l) -> ntt Sp = Some shift_ntt ->
+    (0 < cs)%Z -> (0 <= tail)%Z -> (poly_degree o Sp < tail)%Z ->
+    forall j ww k, okl ww -> zlen ww = (cs + tail)%Z -> (Z.of_nat j * cs <= zlen a)%Z ->
+      peq (D a) (padd (pmul k (padd (D Sp) (pXn (Z.to_nat (cs + tail))))) (D (take (Z.of_nat j * cs) a ++ ww))) ->
+      exists r k', pdiv_ntt_friendly_loop o ntt intt j a shift_ntt cs tail ww = Some r /\ okl r /\
+                   zlen r = (cs + tail)%Z /\
+                   peq (D a) (padd (pmul k' (padd (D Sp) (pXn (Z.to_nat (cs + tail))))) (D r)).
+  Proof.
+    intros Hl Ha HS LS Epow ES Hcs Htl Hsd. induction j as [|j IH]; intros ww k Hww Lww Lws Inv.
+    - exists ww, k. split; [reflexivity|]. split; [exact Hww|]. split; [exact Lww|]. cbn in Inv. exact Inv.
+    - cbn [pdiv_ntt_friendly_loop].
+      destruct (zlen ww <? tail)%Z eqn:E0; [apply Z.ltb_lt in E0; lia|]. clear E0.
+      assert (Hov : okl (drop tail ww)) by (unfold drop; apply Forall_skipn; exact Hww).
+      assert (Lov : zlen (drop tail ww) = cs) by (rewrite zlen_drop by lia; lia).
+      set (X := drop tail ww ++ zrepeat (fzero o) tail).
+      assert (HX : okl X) by (apply Forall_app; split; [exact Hov|apply Forall_zrepeat; exact (ok0 o fk ok den H)]).
+      assert (LX : length X = (2 ^ l)%nat).
+      { unfold X. rewrite app_length. unfold zrepeat. rewrite repeat_length. unfold zlen in *. lia. }
+      assert (EX : peq (D X) (D (drop tail ww))) by (unfold X, zrepeat; apply (peq_D_app_zeros o fk ok den H)).
+      assert (Hfit : forall i, (2 ^ l <= i)%nat -> coeff (pmul (D X) (D Sp)) i = 0).
+      { intros i Hi. apply coeff_pmul_above. rewrite (pdeg_peq fk _ _ EX).
+        pose proof (pdeg_le_length fk (D (drop tail ww))) as P1. rewrite map_length in P1.
+        rewrite <- (degree_pdeg o fk ok den H Sp HS). unfold zlen in *. lia. }
+      destruct (ntt_product_spec l X Sp shift_ntt Hl HX HS LX ltac:(unfold zlen in *; lia) ES Hfit)
+        as [p1 [product [E1 [E2 [Hpr [Lpr Ppr]]]]]].
+      fold X. rewrite E1, E2.
+      set (ws := (Z.of_nat j * cs)%Z).
+      set (chunk := take cs (drop ws a)).
+      assert (Lch : zlen chunk = cs) by (unfold chunk; rewrite zlen_take, zlen_drop by (unfold ws; lia); unfold ws; lia).
+      rewrite Lch, Z.eqb_refl. cbn [negb].
+      assert (Hch : okl chunk) by (unfold chunk; apply Forall_take; unfold drop; apply Forall_skipn; exact Ha).
+      assert (Hlow : okl (take tail ww)) by (apply Forall_take; exact Hww).
+      assert (Llow : zlen (take tail ww) = tail) by (rewrite zlen_take; lia).
+      set (ww1 := chunk ++ take tail ww).
+      assert (Hww1 : okl ww1) by (apply Forall_app; split; assumption).
+      assert (Lww1 : zlen ww1 = (cs + tail)%Z) by (unfold ww1; rewrite zlen_app; lia).
+      destruct (zlen product <? zlen ww1)%Z eqn:E3; [apply Z.ltb_lt in E3; unfold zlen in *; lia|]. clear E3.
+      destruct (map2_sub_pad o fk ok den H ww1 product Hww1 Hpr ltac:(unfold zlen in *; lia)) as [M1 [M2 M3]].
+      replace (length ww1 - length product)%nat with O in M1, M2, M3 by (unfold zlen in *; lia).
+      cbn [repeat] in M1, M2, M3. rewrite app_nil_r in M1, M2, M3.
+      set (ww' := map2 (fsub o) ww1 product) in *.
+      apply (IH ww' (padd k (pmul (pXn (Z.to_nat ws)) (D (drop tail ww)))) M1).
+      + unfold zlen in *. lia.
+      + fold ws. unfold ws in *. lia.
+      + rewrite Inv. fold ws.
+        assert (Esplit : take (Z.of_nat (S j) * cs) a ++ ww = take ws a ++ chunk ++ take tail ww ++ drop tail ww).
+        { replace (Z.of_nat (S j) * cs)%Z with (ws + cs)%Z by (unfold ws; lia). rewrite (take_add ws cs a) by (unfold ws; lia).
+          fold chunk. rewrite <- app_assoc. rewrite (take_drop_id tail ww). reflexivity. }
+        rewrite Esplit, !map_app.
+        assert (LT : length (D (take ws a)) = Z.to_nat ws).
+        { rewrite map_length. pose proof (zlen_take ws a) as Y. unfold zlen, ws in *. lia. }
+        rewrite (structured_step fk (D (take ws a)) (D chunk) (D (take tail ww)) (D (drop tail ww)) (D Sp) (D ww')
+                   (Z.to_nat ws) (Z.to_nat cs) (Z.to_nat tail) LT
+                   ltac:(rewrite map_length; unfold zlen in Lch; lia) ltac:(rewrite map_length; unfold zlen in Llow; lia)).
+        * rewrite (app_padd_pshift fk (D (take ws a)) (D ww')), LT.
+          replace (Z.to_nat (cs + tail)) with (Z.to_nat cs + Z.to_nat tail)%nat by lia. ring.
+        * rewrite M3. unfold ww1. rewrite map_app, Ppr, EX. reflexivity.
+  Qed.
+
+  Lemma is_pow2_pow l : is_pow2 (Z.of_nat (2 ^ l)) = true.
+  Proof.
+    unfold is_pow2. rewrite Nat2Z.inj_pow. change (Z.of_nat 2) with 2%Z. rewrite Z.log2_pow2 by lia.
+    rewrite Z.eqb_refl, andb_true_r. apply Z.ltb_lt. apply Z.pow_pos_nonneg; lia.
+  Qed.
+
+  (* reduce_by_ntt_friendly_modulus with the transform of Sp (2^l stored coefficients, deg Sp < tail < 2^l):
+     no panic, the result is congruent to the input modulo X^(2^l) + Sp *)
+  Theorem reduce_by_ntt_friendly_modulus_spec chk a Sp shift_ntt tail l : (l <= lmax)%nat -> okl a -> okl Sp ->
+    zlen Sp = Z.of_nat (2 ^ l) -> ntt Sp = Some shift_ntt -> (0 <= tail < Z.of_nat (2 ^ l))%Z -> (poly_degree o Sp < tail)%Z ->
+    exists r, pdiv_reduce_by_ntt_friendly_modulus o ntt intt chk a shift_ntt tail = Some r /\ okl r /\
+              (zlen r <= Z.max (zlen a) (Z.of_nat (2 ^ l)))%Z /\
+              exists k, peq (D a) (padd (pmul k (padd (D Sp) (pXn (2 ^ l)))) (D r)).
+  Proof.
+    intros Hl Ha HS LS ES Htl Hsd. unfold pdiv_reduce_by_ntt_friendly_modulus.
+    destruct (ntt_is_dft l Sp Hl ltac:(unfold zlen in LS; lia) HS) as [y [Y1 [_ [Y3 _]]]]. rewrite ES in Y1. inversion Y1; subst y.
+    assert (Ldl : zlen shift_ntt = Z.of_nat (2 ^ l)) by (unfold zlen in *; lia).
+    rewrite Ldl, is_pow2_pow. cbn [negb].
+    set (dl := Z.of_nat (2 ^ l)) in *.
+    destruct (dl <? tail)%Z eqn:E0; [apply Z.ltb_lt in E0; lia|]. clear E0.
+    set (cs := (dl - tail)%Z).
+    destruct (zlen a <? dl)%Z eqn:E1.
+    - exists a. split; [reflexivity|]. split; [exact Ha|]. split; [lia|]. exists []. cbn [PolySpec.pmul PolySpec.padd]. reflexivity.
+    - apply Z.ltb_ge in E1. destruct (cs =? 0)%Z eqn:E2; [apply Z.eqb_eq in E2; unfold cs in E2; lia|]. clear E2.
+      assert (Hcs : (0 < cs)%Z) by (unfold cs; lia).
+      set (num := ((zlen a - dl + cs - 1) / cs)%Z).
+      assert (Hnum : (0 <= num /\ zlen a - dl <= num * cs /\ num * cs <= zlen a - dl + cs - 1)%Z).
+      { unfold num. pose proof (Z.div_mod (zlen a - dl + cs - 1) cs ltac:(lia)) as DM.
+        pose proof (Z.mod_pos_bound (zlen a - dl + cs - 1) cs Hcs) as MB.
+        assert (0 <= (zlen a - dl + cs - 1) / cs)%Z by (apply Z.div_pos; lia). nia. }
+      destruct Hnum as [N0 [N1 N2]].
+      destruct (zlen a <=? num * cs)%Z eqn:E3; [apply Z.leb_le in E3; unfold cs in *; lia|]. clear E3.
+      assert (Hd : okl (drop (num * cs) a)) by (unfold drop; apply Forall_skipn; exact Ha).
+      assert (Ld : (zlen (drop (num * cs) a) <= dl)%Z) by (rewrite zlen_drop by lia; unfold cs in *; lia).
+      assert (Edl : dl = (cs + tail)%Z) by (unfold cs; lia).
+      destruct (ntt_friendly_loop_spec a Sp shift_ntt cs tail l Hl Ha HS ltac:(lia) ltac:(unfold dl in Edl; lia) ES Hcs ltac:(lia) Hsd
+                  (Z.to_nat num) (resize (drop (num * cs) a) dl (fzero o)) [])
+        as [r [k' [R1 [R2 [R3 R4]]]]].
+      + rewrite (resize_pad o _ dl Ld). apply Forall_app. split; [exact Hd|]. apply Forall_forall. intros x Hx.
+        apply repeat_spec in Hx. subst x. exact (ok0 o fk ok den H).
+      + rewrite (resize_pad o _ dl Ld), zlen_app. unfold zlen at 2. rewrite repeat_length. unfold zlen in *. lia.
+      + rewrite Z2Nat.id by lia. unfold cs in *. lia.
+      + cbn [PolySpec.pmul PolySpec.padd]. rewrite Z2Nat.id by lia.
+        rewrite (resize_pad o _ dl Ld), app_assoc, (take_drop_id (num * cs) a).
+        symmetry. apply (peq_D_app_zeros o fk ok den H).
+      + exists r. split; [exact R1|]. split; [exact R2|]. split; [lia|].
+        exists k'. rewrite R4. apply padd_peq; [|reflexivity]. apply pmul_peq; [reflexivity|].
+        rewrite <- Edl. unfold dl. rewrite Nat2Z.id. reflexivity.
+  Qed.
+  (* shift_factor_ntt_with_tail_length: the transform of the lower part of a monic multiple X^n + S' of the modulus,
+     n = next_power_of_two(max(FAST_REDUCE_CUTOFF_THRESHOLD, 2 deg)), and a tail length with deg S' < tail <= deg *)
+  Lemma shift_factor_spec m : okl m -> (1 <= poly_degree o m)%Z ->
+    (next_pow2 (Z.max FAST_REDUCE_CUTOFF_THRESHOLD (poly_degree o m * 2)) + 1 <= 2 ^ Z.of_nat lmax)%Z ->
+    exists Sp s tail l, pdiv_shift_factor_ntt_with_tail_length o ntt intt m = Some (s, tail) /\
+      (l <= lmax)%nat /\ okl Sp /\ zlen Sp = Z.of_nat (2 ^ l) /\ ntt Sp = Some s /\
+      (1 <= tail <= poly_degree o m)%Z /\ (2 * poly_degree o m <= Z.of_nat (2 ^ l))%Z /\ (poly_degree o Sp < tail)%Z /\
+      pdvd (D m) (padd (D Sp) (pXn (2 ^ l))).
+  Proof.
+    intros Hm Hd HB. unfold pdiv_shift_factor_ntt_with_tail_length.
+    set (d := poly_degree o m) in *.
+    destruct (d <? 0)%Z eqn:E0; [apply Z.ltb_lt in E0; lia|]. clear E0.
+    set (n := next_pow2 (Z.max FAST_REDUCE_CUTOFF_THRESHOLD (d * 2))) in *.
+    destruct (next_pow2_spec (Z.max FAST_REDUCE_CUTOFF_THRESHOLD (d * 2)) ltac:(lia)) as [l [N1 [N2 _]]]. fold n in N1.
+    assert (Epow : n = Z.of_nat (2 ^ l)) by (rewrite N1, Nat2Z.inj_pow; reflexivity).
+    assert (Hl : (l <= lmax)%nat).
+    { destruct (Nat.le_gt_cases l lmax) as [X|X]; [exact X|exfalso].
+      assert (2 ^ Z.of_nat lmax < 2 ^ Z.of_nat l)%Z by (apply Z.pow_lt_mono_r; lia). lia. }
+    destruct (structured_multiple_dft o fk ok den H ntt intt lmax wr ntt_is_dft intt_is_idft wr_half_root wr_nonzero two_nz
+                m n Hm Hd ltac:(lia) HB) as [nfm [R1 [R2 [R3 [R4 [R5 [R6 R7]]]]]]].
+    rewrite R1. destruct (zlen nfm <? n)%Z eqn:E1; [apply Z.ltb_lt in E1; lia|]. clear E1.
+    set (Sp := take n nfm).
+    assert (HSp : okl Sp) by (apply Forall_take; exact R2).
+    assert (LSp : zlen Sp = n) by (unfold Sp; rewrite zlen_take; lia).
+    destruct (ntt_is_dft l Sp Hl ltac:(unfold zlen in LSp; lia) HSp) as [s [S1 _]]. rewrite S1.
+    (* the last coefficient is 1 *)
+    assert (Esplit : nfm = Sp ++ drop n nfm) by (symmetry; apply take_drop_id).
+    assert (Ldr : zlen (drop n nfm) = 1%Z) by (rewrite zlen_drop by lia; lia).
+    destruct (drop n nfm) as [|x [|? ?]] eqn:Edr; try (unfold zlen in Ldr; cbn in Ldr; lia).
+    assert (Ex : den x = 1).
+    { destruct (coeff_at_pdeg fk (D nfm) ltac:(lia)) as [C1 _]. rewrite R4, R5 in C1. rewrite <- C1.
+      rewrite Esplit, map_app. cbn [map]. rewrite (coeff_snoc fk), map_length.
+      replace (Z.to_nat n <? length Sp)%nat with false by (symmetry; apply Nat.ltb_ge; unfold zlen in LSp; lia).
+      replace (Z.to_nat n =? length Sp)%nat with true by (symmetry; apply Nat.eqb_eq; unfold zlen in LSp; lia). reflexivity. }
+    assert (Enfm : peq (D nfm) (padd (D Sp) (pXn (2 ^ l)))).
+    { rewrite Esplit at 1. rewrite map_app. cbn [map]. rewrite Ex, (app_padd_pshift fk), map_length.
+      replace (length Sp) with (2 ^ l)%nat by (unfold zlen in LSp; lia). reflexivity. }
+    (* the lower part has degree < d *)
+    assert (DSp : (poly_degree o Sp < d)%Z).
+    { rewrite (degree_pdeg o fk ok den H Sp HSp).
+      assert (X : (pdeg (D Sp) < Z.of_nat (Z.to_nat d))%Z); [|lia]. apply pdeg_bound. intros i Hi.
+      destruct (Nat.lt_ge_cases i (Z.to_nat n)) as [L|G].
+      - rewrite <- (R6 i ltac:(fold d; lia)). rewrite Esplit at 1. rewrite map_app. symmetry. apply coeff_app_l.
+        rewrite map_length. unfold zlen in LSp. lia.
+      - apply coeff_overflow. rewrite map_length. unfold zlen in LSp. lia. }
+    assert (Erl : removelast nfm = Sp).
+    { rewrite removelast_firstn_len. unfold Sp, take. f_equal. unfold zlen in R7. lia. }
+    rewrite Erl. pose proof (degree_ge o Sp) as Gs.
+    exists Sp, s, (1 + Z.max 0 (poly_degree o Sp))%Z, l. split; [reflexivity|]. split; [exact Hl|]. split; [exact HSp|].
+    split; [lia|]. split; [exact S1|]. split; [lia|]. split; [unfold FAST_REDUCE_CUTOFF_THRESHOLD in *; lia|]. split; [lia|].
+    apply (pdvd_peq fk (D m) (D m) (D nfm)); [reflexivity|exact Enfm|exact R3].
+  Qed.
+
+  (* fast_reduce: THE remainder, for every non-zero modulus *)
+  Theorem fast_reduce_spec a m : okl a -> okl m -> ~ pzero (D m) ->
+    (next_pow2 (Z.max FAST_REDUCE_CUTOFF_THRESHOLD (poly_degree o m * 2)) + 1 <= 2 ^ Z.of_nat lmax)%Z ->
+    (3 * poly_degree o m + 2 <= 2 ^ Z.of_nat lmax)%Z ->
+    exists r, pdiv_fast_reduce o ntt intt a m = Some r /\ okl r /\ is_rem fk (D a) (D m) (D r).
+  Proof.
+    intros Ha Hm NZ HB1 HB2.
+    pose proof (degree_pdeg o fk ok den H m Hm) as Dm.
+    assert (Gm : (0 <= poly_degree o m)%Z) by (rewrite Dm; apply pdeg_nonneg_iff; exact NZ).
+    destruct (Z.eq_dec (poly_degree o m) 0) as [E0|E0];
+      [apply (fast_reduce_early_exits o fk ok den H ntt intt a m Ha Hm NZ); left; exact E0|].
+    destruct (Z.lt_ge_cases (poly_degree o a) (poly_degree o m)) as [E1|E1];
+      [apply (fast_reduce_early_exits o fk ok den H ntt intt a m Ha Hm NZ); right; exact E1|].
+    unfold pdiv_fast_reduce. set (d := poly_degree o m) in *.
+    destruct (d =? 0)%Z eqn:X0; [apply Z.eqb_eq in X0; lia|]. clear X0.
+    destruct (poly_degree o a <? d)%Z eqn:X1; [apply Z.ltb_lt in X1; lia|]. clear X1.
+    destruct (shift_factor_spec m Hm ltac:(fold d; lia) HB1) as [Sp [s [tail [l [F1 [Hl [HSp [LSp [ES [Ht [H2d [Hsd Hdv]]]]]]]]]]]].
+    rewrite F1.
+    destruct (reduce_by_ntt_friendly_modulus_spec true a Sp s tail l Hl Ha HSp LSp ES ltac:(fold d in Ht, H2d; lia) Hsd)
+      as [ir1 [G1 [Hir1 [_ [k1 C1]]]]]. rewrite G1.
+    (* a = k m + ir1 *)
+    destruct Hdv as [c Ec].
+    assert (Cm1 : exists k, peq (D a) (padd (pmul k (D m)) (D ir1))).
+    { exists (pmul k1 c). rewrite C1, Ec. ring. }
+    destruct (poly_degree o ir1 >? 4 * d)%Z eqn:E2.
+    - (* the structured stage *)
+      unfold pdiv_structured_multiple. fold d. destruct (d <? 0)%Z eqn:X2; [apply Z.ltb_lt in X2; lia|]. clear X2.
+      destruct (structured_multiple_dft o fk ok den H ntt intt lmax wr ntt_is_dft intt_is_idft wr_half_root wr_nonzero two_nz
+                  m (3 * d + 1) Hm ltac:(fold d; lia) ltac:(fold d; lia) ltac:(lia)) as [sm [R1 [R2 [R3 [R4 [R5 [R6 R7]]]]]]].
+      rewrite R1.
+      assert (Dsm : poly_degree o sm = (3 * d + 1)%Z) by (rewrite (degree_pdeg o fk ok den H sm R2); exact R4).
+      assert (Hxn : okl (poly_x_to_the o (3 * d + 1))).
+      { unfold poly_x_to_the. apply Forall_app. split; [apply Forall_zrepeat; exact (ok0 o fk ok den H)|constructor; [exact (ok1 o fk ok den H)|constructor]]. }
+      assert (Hsh : okl (poly_sub o sm (poly_x_to_the o (3 * d + 1)))) by (apply (sub_ok o fk ok den H); assumption).
+      assert (Dsh : (poly_degree o (poly_sub o sm (poly_x_to_the o (3 * d + 1))) < d)%Z).
+      { rewrite (degree_pdeg o fk ok den H _ Hsh), (sub_D o fk ok den H) by assumption. rewrite (x_to_the_D o fk ok den H).
+        assert (X : (pdeg (psub (D sm) (pXn (Z.to_nat (3 * d + 1)))) < Z.of_nat (Z.to_nat d))%Z); [|lia].
+        apply pdeg_bound. intros i Hi. rewrite coeff_psub.
+        assert (Cx : forall j, coeff (pXn (Z.to_nat (3 * d + 1))) j = if (j =? Z.to_nat (3 * d + 1))%nat then 1 else 0).
+        { intros j. unfold PolySpec.pXn. rewrite (coeff_snoc fk), repeat_length.
+          destruct (j <? Z.to_nat (3 * d + 1))%nat eqn:Y.
+          - apply Nat.ltb_lt in Y. replace (j =? Z.to_nat (3 * d + 1))%nat with false by (symmetry; apply Nat.eqb_neq; lia).
+            apply coeff_repeat0.
+          - reflexivity. }
+        rewrite Cx. destruct (Nat.lt_trichotomy i (Z.to_nat (3 * d + 1))) as [L|[E|G]].
+        - replace (i =? Z.to_nat (3 * d + 1))%nat with false by (symmetry; apply Nat.eqb_neq; lia).
+          rewrite (R6 i ltac:(fold d; lia)). ring.
+        - subst i. rewrite Nat.eqb_refl. destruct (coeff_at_pdeg fk (D sm) ltac:(lia)) as [C2 _]. rewrite R4, R5 in C2. rewrite C2. ring.
+        - replace (i =? Z.to_nat (3 * d + 1))%nat with false by (symmetry; apply Nat.eqb_neq; lia).
+          rewrite (coeff_above_pdeg fk (D sm) i) by lia. ring. }
+      destruct (reduce_by_structured_modulus_spec o fk ok den H ntt intt (2 ^ Z.of_nat lmax) Hmult_dft ir1 sm Hir1 R2
+                  ltac:(lia) R5 ltac:(lia) ltac:(rewrite Dsm; lia)) as [ir2 [G2 [Hir2 [_ [_ [k2 C2]]]]]].
+      rewrite G2. apply (fast_reduce_final_stage o fk ok den H a m ir2 Ha Hm Hir2 NZ).
+      destruct Cm1 as [k Ck]. destruct R3 as [c2 Ec2]. exists (padd k (pmul k2 c2)). rewrite Ck, C2, Ec2. ring.
+    - apply (fast_reduce_final_stage o fk ok den H a m ir1 Ha Hm Hir1 NZ). exact Cm1.
+  Qed.
+  (* reduce: THE remainder through every arm of the dispatcher *)
+  Theorem reduce_spec a m : okl a -> okl m -> ~ pzero (D m) ->
+    (next_pow2 (Z.max FAST_REDUCE_CUTOFF_THRESHOLD (poly_degree o m * 2)) + 1 <= 2 ^ Z.of_nat lmax)%Z ->
+    (3 * poly_degree o m + 2 <= 2 ^ Z.of_nat lmax)%Z ->
+    exists r, pdiv_reduce o ntt intt a m = Some r /\ okl r /\ is_rem fk (D a) (D m) (D r).
+  Proof.
+    intros Ha Hm NZ HB1 HB2. destruct (Z.eq_dec (pdiv_reduce_arm o a m) 3) as [E|E].
+    - rewrite (reduce_fast_arm o ntt intt a m E). apply fast_reduce_spec; assumption.
+    - apply (reduce_slow_arms_spec o fk ok den H ntt intt a m Ha Hm NZ E).
+  Qed.
+End FastReduce.
